@@ -10,6 +10,7 @@ import (
 	"time"
 
 	"github.com/B1NARY-GR0UP/originium"
+	"github.com/B1NARY-GR0UP/originium/types"
 	"github.com/B1NARY-GR0UP/originium/utils"
 
 	"verifharness/internal/core"
@@ -225,8 +226,14 @@ func (s *scripted) write(t *sTxn, k int, del bool) {
 	} else if !del && s.r.Intn(10) == 0 {
 		empty = true
 	}
+	viaEntry := s.r.Intn(6) == 0 // the third way to write: SetEntry (Version is the engine's to assign)
 	if del {
-		err = t.tx.Delete(s.keys[k])
+		if viaEntry {
+			s.stat["setentry_calls"]++
+			err = t.tx.SetEntry(types.Entry{Key: s.keys[k], Value: []byte("value-of-a-tombstone"), Tombstone: true, Version: int64(s.r.Intn(3)) * 1 << 40})
+		} else {
+			err = t.tx.Delete(s.keys[k])
+		}
 	} else {
 		var v []byte
 		if empty {
@@ -234,7 +241,12 @@ func (s *scripted) write(t *sTxn, k int, del bool) {
 		} else {
 			id, v = s.newValue()
 		}
-		err = t.tx.Set(s.keys[k], v)
+		if viaEntry {
+			s.stat["setentry_calls"]++
+			err = t.tx.SetEntry(types.Entry{Key: s.keys[k], Value: v, Version: int64(s.r.Intn(3)) * 1 << 40})
+		} else {
+			err = t.tx.Set(s.keys[k], v)
+		}
 	}
 	s.logf("T%d.Write(k%d:=%d)=%v", t.rec.ID, k, id, err)
 	switch {
